@@ -135,6 +135,15 @@ def raw_case(draw) -> Dict[str, Any]:
     if huge:
         epoch, fractional = pick(draw, [2**53 + 11, 1_700_000_000_000_000_003]), False
     ranks = [draw(raw_rank(r, epoch + (pick(draw, [0, 3, 17]) if r else 0), fractional, every_entry_has_ts=huge)) for r in range(nranks)]
-    return {"ranks": ranks, "fmt": [pick(draw, ["json", "gz"]) for _ in range(nranks)], "fractional": fractional,
+    # one rank in a multi-rank job with > 127 distinct names while the other files stay below 128 symbols: the parser's
+    # per-file compact dtype (int8) of name/cat is then too narrow for the job-wide symbol ids
+    big_vocab = bool(nranks >= 2 and nranks < 9 and pick(draw, [False] * 5 + [True]))
+    if big_vocab:
+        tgt = ranks[pick(draw, list(range(nranks)))]
+        first = tgt["events"][0]
+        for i in range(132):
+            tgt["events"].append({"ph": "X", "cat": "cpu_op", "name": f"uniq_op_{i:03d}", "pid": first["pid"], "tid": first["tid"] + 1,
+                                  "ts": first["ts"] + (i % 37), "dur": 1 + (i % 3), "args": {"External id": 7000 + i}})
+    return {"ranks": ranks, "big_vocab": big_vocab, "fmt": [pick(draw, ["json", "gz"]) for _ in range(nranks)], "fractional": fractional,
             "mp": pick(draw, [True, False, False]), "mode": pick(draw, ["load", "parse", "analysis", "dir"] if not huge else ["load", "analysis", "dir"]),
             "huge_epoch": bool(huge)}
